@@ -14,6 +14,8 @@ pub fn run(mode: &str, args: &[&str], line: &str) -> String {
         "work" => with_str(line, |s| work(args[0], s)),
         "load" => with_str(line, |s| load(args[0], args.get(1).copied().unwrap_or("eager"), s)),
         "resolve" => with_str(line, resolve),
+        "hist" => hist(args[0], line),
+        "display" => with_str(line, display),
         _ => format!("|BADMODE {mode}"),
     }
 }
@@ -371,4 +373,48 @@ fn resolve(s: &str) -> String {
         out.push(da);
     }
     format!("{};{}", out.join("|"), if flags.is_empty() { "ok".to_string() } else { flags.join(",") })
+}
+
+// ---------------------------------------------------------------------------------------------
+// C17: a history of peek (P) / next (N) calls; case line = "<PN pattern>#<code points>"
+// ---------------------------------------------------------------------------------------------
+fn hist_run<I: Input>(mut p: Parser<'_, I>, pat: &str) -> String {
+    let mut out = vec![];
+    for c in pat.chars() {
+        let r = match c {
+            'P' => match p.peek() {
+                None => "NONE".to_string(),
+                Some(Ok((e, s))) => ev(e, s),
+                Some(Err(e)) => err(&e),
+            },
+            _ => match p.next_event() {
+                None => "NONE".to_string(),
+                Some(Ok((e, s))) => ev(&e, &s),
+                Some(Err(e)) => err(&e),
+            },
+        };
+        let stop = r.starts_with("ERR@");
+        out.push(r);
+        if stop {
+            break;
+        }
+    }
+    out.join(";")
+}
+fn hist(backend: &str, line: &str) -> String {
+    let Some((pat, cpsline)) = line.split_once('#') else { return "|BADCASE".into() };
+    let Some(s) = decode(cpsline) else { return "|BADCASE".into() };
+    let pat = pat.to_string();
+    let backend = backend.to_string();
+    guard(move || with_parser!(backend.as_str(), s.as_str(), p => hist_run(p, &pat)))
+}
+
+/// C12: the printed form of the first error (or OK)
+fn display(s: &str) -> String {
+    for x in Parser::new_from_str(s) {
+        if let Err(e) = x {
+            return format!("{}#{}", mk(e.marker()), msg(&format!("{e}")));
+        }
+    }
+    "OK".into()
 }
